@@ -66,6 +66,10 @@ pub enum MemberSpec {
 	Wrap(usize),
 	/// reference to an earlier collection of the world
 	Coll(usize),
+	/// reference to an EMPTY owned collection (`OwnedLockCollection<[_; 0]>`, a
+	/// zero-sized value) that sits at the very address of stand-alone leaf `i`,
+	/// as a zero-sized tuple field next to a lock can
+	EmptyOwnedAt(usize),
 	/// reference to by-value member `pos` of earlier collection `coll`
 	/// (reached through child(); the collection must be Boxed/Retry/Ref over a Vec<OMem>)
 	Inner(usize, usize),
@@ -239,6 +243,8 @@ impl Sem {
 								flat.pos.push(Pos { leaf: *i as Lid, ty: d.ty, wraps: w, group: u32::MAX });
 								flat.units.push(format!("l{i}"));
 							}
+							// no lock, no unit: nothing in it can be reached twice
+							MemberSpec::EmptyOwnedAt(_) => {}
 							MemberSpec::Coll(j) => {
 								let sub = sem.flats[*j].clone();
 								flat.extend_with(&sub, &cw);
@@ -432,6 +438,11 @@ impl Sem {
 								return Err(format!("coll {ci}: wrap of leaf {i}"));
 							}
 						}
+						MemberSpec::EmptyOwnedAt(i) => {
+							if *i >= spec.leaves.len() {
+								return Err(format!("coll {ci}: empty owned collection at leaf {i} out of range"));
+							}
+						}
 						MemberSpec::Coll(j) => {
 							if *j >= ci || !Sem::nestable(&spec.colls[*j]) {
 								return Err(format!("coll {ci}: member coll {j} not nestable"));
@@ -584,6 +595,17 @@ pub enum LeafRef {
 }
 
 impl LeafRef {
+	/// address of the lock value
+	pub fn addr(&self) -> usize {
+		match *self {
+			LeafRef::M(x) => x as *const _ as usize,
+			LeafRef::R(x) => x as *const _ as usize,
+			LeafRef::PM(x) => x as *const _ as usize,
+			LeafRef::PR(x) => x as *const _ as usize,
+			LeafRef::PPM(x) => x as *const _ as usize,
+			LeafRef::PPR(x) => x as *const _ as usize,
+		}
+	}
 	pub fn target(&self) -> &'static dyn DynTarget {
 		match *self {
 			LeafRef::M(x) => x,
@@ -862,6 +884,16 @@ fn build_members(ms: &[MemberSpec], leaves: &[LeafRef], colls: &[BuiltColl]) -> 
 				LeafRef::R(x) => Mem::WR(Poisonable::new(x)),
 				_ => unreachable!("validated"),
 			},
+			MemberSpec::EmptyOwnedAt(i) => {
+				let addr = leaves[*i].addr();
+				if addr % std::mem::align_of::<Owned<[OMem; 0]>>() != 0 {
+					return None;
+				}
+				// a reference to a zero-sized value is valid at any aligned non-null
+				// address; safe code gets the same coincidence from a zero-sized
+				// tuple field next to a lock
+				Mem::OwnedZ(unsafe { &*(addr as *const Owned<[OMem; 0]>) })
+			}
 			MemberSpec::Coll(j) => colls[*j].nest.as_ref()?.mem(),
 			MemberSpec::Inner(j, k) => Mem::O(&colls[*j].nest.as_ref()?.inner()?[*k]),
 		});
